@@ -1626,7 +1626,7 @@ def do_define_cmake(line: str, confdata: 'ConfigurationData', at_only: bool,
     cmake_bool_define = 'cmakedefine01' in line
 
     def get_cmake_define(line: str, confdata: 'ConfigurationData') -> str:
-        arr = line[1:].split()
+        arr = line.lstrip()[1:].split()
 
         if cmake_bool_define:
             (v, desc) = confdata.get(arr[1])
@@ -1641,7 +1641,7 @@ def do_define_cmake(line: str, confdata: 'ConfigurationData', at_only: bool,
                 define_value += [token]
         return ' '.join(define_value)
 
-    arr = line[1:].split()
+    arr = line.lstrip()[1:].split()
 
     if len(arr) != 2 and subproject is not None:
         from ..interpreterbase.decorators import FeatureNew
